@@ -216,3 +216,107 @@ def prune (st : St ρ) (keep : Nat) : St ρ :=
   | some k => { st with blocks := st.blocks.filter (fun b => k * LEN - keep ≤ b.number) }
 
 end Importer
+
+namespace Importer
+open Import
+
+variable {ρ : Type} (R : List Block → Option ρ)
+
+/-! ## an import that exits early only extends the root cache -/
+
+theorem highest_mem_le : ∀ (S : List Block) (acc : Option Block) (h : Block),
+    S.foldl (fun acc b => match acc with
+      | none => some b
+      | some a => if a.number < b.number then some b else some a) acc = some h →
+    (h ∈ S ∨ acc = some h) := by
+  intro S
+  induction S with
+  | nil => intro acc h e; exact Or.inr e
+  | cons x r ih =>
+    intro acc h e
+    simp only [List.foldl_cons] at e
+    rcases ih _ h e with h1 | h1
+    · exact Or.inl (by simp [h1])
+    · cases acc with
+      | none => simp at h1; exact Or.inl (by simp [h1])
+      | some a =>
+        simp only at h1
+        split at h1
+        · simp at h1; exact Or.inl (by simp [h1])
+        · exact Or.inr h1
+
+/-- early exit (`highest stored block ≥ target`): the range importer still runs; the roots stay the
+cache of the stored blocks, all cached ranges at or below the highest stored block -/
+theorem early_exit_rinv (S : List Block) (roots : List (Nat × ρ)) (target : Nat) (b : Block)
+    (hb : highest S = some b) (hge : b.number ≥ target) (h : RInv R S roots) :
+    RInv R S (rangesRun R S roots target) := by
+  obtain ⟨K, hK, hB⟩ := h
+  have hmem : b ∈ S := by
+    rcases highest_mem_le S none b hb with h1 | h1
+    · exact h1
+    · cases h1
+  refine ⟨max K ((target + 1) / LEN), by rw [hK, rangesRun_cached], ?_⟩
+  by_cases hk : (target + 1) / LEN ≤ K
+  · have : max K ((target + 1) / LEN) = K := by omega
+    rw [this]; exact hB
+  · have : max K ((target + 1) / LEN) = (target + 1) / LEN := by omega
+    rw [this]
+    refine Or.inr ⟨b, hmem, ?_⟩
+    have := Nat.div_mul_le_self (target + 1) LEN
+    omega
+
+/-! ## what the signable builders read -/
+
+/-- `compute_merkle_map_from_block_range_roots(beacon)` of the blocks-and-transactions builder: the
+stored roots with `start < beacon`; if the beacon is not the last block of its range AND the highest
+of those roots is not the root of the range containing the beacon, the root of the partial range
+`[start(range(beacon)), beacon]` computed from the stored blocks is added -/
+def signable (S : List Block) (roots : List (Nat × ρ)) (beacon : Nat) : List (Nat × ρ) :=
+  let rs := roots.filter (fun r => r.1 * LEN < beacon)
+  let kb := beacon / LEN
+  let fully : Bool := (beacon + 1) % LEN == 0
+  let contained : Bool := match (rs.map (·.1)).max? with
+    | some k => k == kb
+    | none => false
+  if !fully && !contained then
+    match R (S.filter (fun x => kb * LEN ≤ x.number && x.number ≤ beacon)) with
+    | some r => rs ++ [(kb, r)]
+    | none => rs
+  else rs
+
+/-- the legacy builder: the stored roots with `start < beacon` -/
+def signableLegacy (roots : List (Nat × ρ)) (beacon : Nat) : List (Nat × ρ) :=
+  roots.filter (fun r => r.1 * LEN < beacon)
+
+theorem filter_start_lt (S : List Block) (K j : Nat) :
+    (cached R S K).filter (fun r => r.1 * LEN < j * LEN - 1 + 1 - 1) = (cached R S K).filter (fun r => r.1 < j) := by
+  apply List.filter_congr
+  intro r _
+  simp only [decide_eq_decide]
+  unfold LEN
+  omega
+
+/-- **aligned beacons** (`beacon + 1` a multiple of 15 — every `CardanoTransactions` beacon): what the
+builders read is the cache of the ranges below the beacon, whatever further ranges the node has
+already computed (`K` beyond `(beacon+1)/15`) -/
+theorem signable_aligned (S : List Block) (K j : Nat) (hj : 0 < j) (hK : j ≤ K) :
+    signable R S (cached R S K) (j * LEN - 1) = cached R S j ∧
+    signableLegacy (cached R S K) (j * LEN - 1) = cached R S j := by
+  have hf : (cached R S K).filter (fun r => r.1 * LEN < j * LEN - 1) = cached R S j := by
+    have : (cached R S K).filter (fun r => r.1 * LEN < j * LEN - 1) = (cached R S K).filter (fun r => r.1 < j) := by
+      apply List.filter_congr
+      intro r _
+      simp only [decide_eq_decide]
+      unfold LEN
+      omega
+    rw [this, rollbackRoots_cached]
+    congr 1; omega
+  refine ⟨?_, hf⟩
+  unfold signable
+  have hfully : ((j * LEN - 1 + 1) % LEN == 0) = true := by
+    have : j * LEN - 1 + 1 = j * LEN := by unfold LEN; omega
+    rw [this]; simp
+  simp only [hf, hfully, Bool.not_true, Bool.false_and]
+  rfl
+
+end Importer
